@@ -30,4 +30,4 @@ json.dump(m,open(f,'w'),indent=1)
 PY
 done
 git -C /repo worktree remove --force "$wt"; rm -rf /root/.cache/verif-selftest/build.$$
-for id in $ids; do ./bin/verif check $id --tier quick >/dev/null 2>&1; done
+# (runs against a scratch tree write their evidence under the scratch directory, not to /verif/evidence)
